@@ -292,11 +292,7 @@ func (e *executor) executeSelections(selections []ast.Selection, objectType *sch
 }
 
 func isNil(v any) bool {
-	if v == nil {
-		return true
-	}
-	rv := reflect.ValueOf(v)
-	return (rv.Kind() == reflect.Ptr || rv.Kind() == reflect.Interface) && rv.IsNil()
+	return future.IsNil(v)
 }
 
 func newFieldResolveError(fields []*ast.Field, err error, path *path) *Error {
